@@ -1021,14 +1021,13 @@ func compileRepeatStmt(context *funcContext, stmt *ast.RepeatStmt) { // {{{
 } // }}}
 
 func compileBreakStmt(context *funcContext, stmt *ast.BreakStmt) { // {{{
-	refUpvalue := false
 	for block := context.Block; block != nil; block = block.Parent {
-		// a captured local may live in a block nested inside the loop body
-		refUpvalue = refUpvalue || block.RefUpvalue
 		if label := block.BreakLabel; label != labelNoJump {
-			if refUpvalue {
-				context.Code.AddABC(OP_CLOSE, block.Parent.LocalVars.LastIndex(), 0, 0, sline(stmt))
-			}
+			// Always close: whether a local of the loop body (or of a block nested
+			// in it) is captured is not known yet when the break is compiled - the
+			// capturing closure may come textually later and still run first
+			// (backward goto).
+			context.Code.AddABC(OP_CLOSE, block.Parent.LocalVars.LastIndex(), 0, 0, sline(stmt))
 			context.Code.AddASbx(OP_JMP, 0, label, sline(stmt))
 			return
 		}
